@@ -747,7 +747,8 @@ class Fxp():
                 vdtype = np.dtype(np.float64 if vdtype.kind == 'f' else np.int64)
         
         # scaling conversion
-        self.scaled = False
+        # (the object stays scaled when a raw value is set: only the conversion of the input value is skipped)
+        self.scaled = bool(self.scale is not None and self.bias is not None and (self.bias != 0 or self.scale != 1))
         if self.scale is not None and self.bias is not None and not raw:
             if self.bias != 0:
                 val = val - self.bias
